@@ -42,6 +42,7 @@ type c25ES struct {
 	es       *agent.VerifEventStream
 	filters  []agent.EventFilter
 	inflight bool
+	halted   bool // Stop() was called; HandleEvent must ignore everything from now on
 	shown    int
 }
 
@@ -168,7 +169,7 @@ func c25Exec(ops []string) []string {
 			}
 			ent := es.rec.Entered()
 			es.es.HandleEvent(e)
-			if !es.inflight {
+			if !es.inflight && !es.halted {
 				// an idle stream goroutine must pick a wanted event up; wait for it to reach Send.
 				// (which events are wanted is asked of the real filter, only to know whether to wait)
 				want := false
@@ -190,6 +191,10 @@ func c25Exec(ops []string) []string {
 				fl = 1
 			}
 			outs = append(outs, fmt.Sprintf("buf=%d fl=%d", es.es.BufLen(), fl))
+		case len(f) == 1 && f[0] == "halt" && es != nil:
+			es.es.Stop()
+			es.halted = true
+			outs = append(outs, "ok")
 		case len(f) == 2 && f[0] == "rel" && es != nil:
 			k, err := strconv.Atoi(f[1])
 			if err != nil {
@@ -693,6 +698,8 @@ func c25Gen(rng *rand.Rand, tier string) []Case {
 		for j := 0; j < k; j++ {
 			if rng.Intn(4) == 0 {
 				ops = append(ops, fmt.Sprintf("rel %d", 1+rng.Intn(4)))
+			} else if rng.Intn(25) == 0 {
+				ops = append(ops, "halt")
 			} else {
 				ops = append(ops, ev(j+1))
 			}
